@@ -1019,7 +1019,7 @@ func (e *Exec) loopSpec(fr *Frame, h *ssa.BasicBlock) *LoopSpec {
 	}
 	if spec == nil {
 		// an unannotated loop is cut with what the engine knows by itself: the frame invariant of the function and, for
-		// range loops, that the number of completed iterations is not negative. Weak but sound: whatever the contract
+		// range loops over slices, that the number of completed iterations is not negative. Weak but sound: whatever the contract
 		// needs from the loop beyond that then fails as a named obligation instead of a refusal to generate.
 		spec = &LoopSpec{Ordinal: ord}
 		for _, ins := range h.Instrs {
@@ -1027,7 +1027,7 @@ func (e *Exec) loopSpec(fr *Frame, h *ssa.BasicBlock) *LoopSpec {
 			if !ok {
 				break
 			}
-			if phi.Comment == "rangeindex" || phi.Comment == "rangeint.iter" {
+			if phi.Comment == "rangeindex" {
 				if x, err := ParseExpr("0 <= _n"); err == nil {
 					spec.Invariants = append(spec.Invariants, Clause{Label: "auto-range", Text: "0 <= _n", E: x, Src: "(automatic)"})
 				}
